@@ -11,3 +11,6 @@ import SpoxModel.Props.C01
 #print axioms C01.denote_congr_needed
 #print axioms C01.unused_inputs_irrelevant
 #print axioms C01.drop_unused_inputs_sound
+#print axioms C01.generated_entry_options_exercised
+#print axioms C01.usedArgs_caller_order
+#print axioms C01.dropUnused_idempotent
